@@ -24,9 +24,15 @@ Reasons(e) ==
    (IF e.junk THEN {"fid-unparsable-stdout"} ELSE {}) \cup
    \* every summary table against the results the library computed for that input (Summary.tla)
    UNION {SM!TableReasons(e.tables[k], e.libSts[e.tables[k].input]) : k \in 1..Len(e.tables)}
+\* a PEM input of several blocks whose first block is a parseable certificate: that certificate's results are reported first
+BundleReasons(e) ==
+   (IF e.exitObs # 0 \/ e.printedObs = 0 THEN {"fid-bundle-not-reported"} ELSE {}) \cup
+   (IF e.printedObs > 0 /\ ~e.firstMatches THEN {"bundle-first-report-is-not-the-first-certificate"} ELSE {}) \cup
+   (IF e.printedObs > 1 THEN {"fid-bundle-further-reports"} ELSE {}) \cup
+   UNION {SM!TableReasons(e.tables[k], e.libSts[e.tables[k].input]) : k \in 1..Len(e.tables)}
 TraceInit == l = 1 /\ nrej = 0
 Step == /\ l <= Len(Trace)
-        /\ LET r == IF Trace[l].ev = "CLI" THEN Reasons(Trace[l]) ELSE {} IN
+        /\ LET r == IF Trace[l].ev = "CLI" THEN Reasons(Trace[l]) ELSE IF Trace[l].ev = "CLIBundle" THEN BundleReasons(Trace[l]) ELSE {} IN
              IF r = {} THEN nrej' = nrej ELSE PrintT(<<"REJECT", l, r>>) /\ nrej' = nrej + 1
         /\ l' = l + 1
 Done == l = Len(Trace) + 1 /\ PrintT(<<"DONE", Len(Trace), nrej>>) /\ l' = l + 1 /\ UNCHANGED nrej
